@@ -3365,6 +3365,9 @@ namespace bloch::runtime {
                 m_trackedCounts[key][outcome]++;
             }
         }
+        // Detach the scope before its values die: releasing the last reference to an object runs
+        // its destructor, which pushes and pops scopes on m_env again.
+        auto scope = std::move(m_env.back());
         m_env.pop_back();
     }
 
